@@ -324,6 +324,22 @@ loop:
 			if !stop.keepWorking {
 				return
 			}
+
+			// Cancel any work-in-progress: drop the incoming work's remaining
+			// dRange and any outgoing work that was not sent. The concReader
+			// has already recycled every buffer that was sent. Reclaim the
+			// buffer that was not.
+			if outWork.buffer != nil {
+				for i := range buffers {
+					if buffers[i] == nil {
+						buffers[i] = outWork.buffer
+						break
+					}
+				}
+			}
+			input, output = reqc, nil
+			outWork = rWork{}
+			dRange = Range{}
 			continue loop
 
 		case inWork := <-input:
@@ -429,6 +445,12 @@ loop:
 			if !stop.keepWorking {
 				return
 			}
+
+			// Cancel any work-in-progress: forget the old region of interest
+			// (and any work for it that was not sent) and wait for a new one.
+			input, output = roic, nil
+			roi = Range{}
+			work = rWork{}
 			continue loop
 
 		case roi = <-input:
